@@ -80,7 +80,7 @@ MANIFEST = dict(
          "any failure outcome, a malformed request publishes nothing and leaves the state unchanged, and all published "
          "room messages are consumed without failure in every later state. Tied to the code by the extraction and a "
          "differential run of the real server (status, liveness, events, room digest) on structurally mutated signed bodies.",
-    note="Defect found and fixed (8f36e90): no validation — nil sub-object panics in the handler, 'update' killed the hub "
+    note="Defect found and fixed (d040bbc): no validation — nil sub-object panics in the handler, 'update' killed the hub "
          "main loop, 'delete' closed the room before panicking, undecodable switchto sessions gave 500. JSON decoders "
          "trusted. 502/504 of a failing dial-out client are outside the full theorem (characterised exactly).",
     technique="Lean 4 proof (case analysis over the dispatch, invariant 'every forwarded participant entry carries a string "
